@@ -1,5 +1,6 @@
 SPECIFICATION Spec
 CONSTANTS
   Depth = 2
+  Wide = TRUE
 INVARIANTS Agree EmitInv
 CHECK_DEADLOCK FALSE
